@@ -24,7 +24,8 @@ THEOREMS = ["Yaw.C06.init_inv", "Yaw.C06.step_inv", "Yaw.C06.inv_reach", "Yaw.C0
             "Yaw.C06.glue_pinned"]
 RULE = ("the library's MPI code paths (selected at import time) executed in simulated MPI worlds: world sizes 2..5 "
         "(..6 thorough), max_workers in {None, 1, 2, 3}, ranks on one or two nodes (at least two on the root's node), "
-        "scenarios catalog creation (given centres / patch ids / automatic centres), Catalog(cache) incl. metadata "
+        "scenarios catalog creation (given centres / patch ids / automatic centres; chunks with fewer records than "
+        "processing ranks), Catalog(cache) incl. metadata "
         "computation, build_trees, autocorrelate, crosscorrelate, HistData.from_catalog, result I/O, and the bare "
         "dispatch iterator with fewer / more tasks than workers; schedules: which blocked MPI call completes next "
         "(seeded random, lowest / highest rank first, round robin, starving one rank), which sender a wildcard receive "
@@ -198,8 +199,12 @@ def run(prop, tier, seed, replay):
         for sc in scen:
             variants = ["centres", "ids", "auto"] if sc == "create" else (["few", "many"] if sc == "iter" else ["-"])
             for var in variants:
-                p0 = {"prebuilt": str(pre), "n": 40, "seed": 5 + seed, "mode": var if sc == "create" else "centres",
-                      "chunksize": rng.choice([9, 15, 40]), "ncent": 3, "drop_meta": sc == "load",
+                # creation from 41 records: with chunk size 40 / 10 the last chunk holds ONE record, fewer than there
+                # are chunk-processing ranks
+                p0 = {"prebuilt": str(pre), "n": 40 if var == "centres" else 41, "seed": 5 + seed,
+                      "mode": var if sc == "create" else "centres",
+                      "chunksize": {"centres": rng.choice([9, 15, 40]), "ids": 40, "auto": 10}.get(var, 15), "ncent": 3,
+                      "drop_meta": sc == "load",
                       "ntasks": 2 if var == "few" else 9}
                 refjobs.append(dict(id=f"{sc}|{var}", scenario=sc, params=p0, size=1, dir=str(root)))
                 for size in sizes:
